@@ -752,6 +752,13 @@ impl ActorCell {
         self.inner.verif_ports_open()
     }
 
+    /// Whether this actor's child set is still open (`terminate()` closes it for good): verification
+    /// hook, lets a harness tell an empty child set from a closed one
+    #[cfg(feature = "verif")]
+    pub fn verif_children_open(&self) -> bool {
+        self.inner.tree.verif_children_open()
+    }
+
     /// `kill()` that reports whether the signal port accepted the signal (verification hook)
     #[cfg(feature = "verif")]
     pub fn verif_kill(&self) -> bool {
